@@ -31,8 +31,11 @@ META = {
     'explanation': 'Path enumeration of each instruction handler with helper inlining (events: stack accessors, gas charges, result stores); const evaluation of OPCODE_INFO_JUMPTABLE; call-graph wiring of the handler slots.',
 }
 
-INCLUDED_QUICK = ('c05', 'c09', 'c13', 'c14')              # activation, settlement, gas accounting, dynamic gas
-INCLUDED_THOROUGH = ('c02', 'c03', 'c04', 'c08', 'c10', 'c11', 'c12')
+# every decidable part of "executes as specified" runs on every change (the whole set costs ~20 s):
+# activation, settlement, gas accounting, dynamic gas, validation, arithmetic, jumps, journal revert,
+# depth, balances, static mode, memory, stack, warm/cold
+INCLUDED_QUICK = ('c05', 'c09', 'c13', 'c14', 'c02', 'c03', 'c04', 'c06', 'c07', 'c08', 'c10', 'c11', 'c12', 'c34')
+INCLUDED_THOROUGH = ()
 
 DEFERRED = {0xF0, 0xF1, 0xF2, 0xF4, 0xF5, 0xFA}      # CREATE, CALL, CALLCODE, DELEGATECALL, CREATE2, STATICCALL
 HALT_RESULT = {0x00: 'Stop', 0xF3: 'Return', 0xFD: 'Revert', 0xFF: 'SelfDestruct'}
